@@ -723,6 +723,12 @@ int yr_execute_code(YR_SCAN_CONTEXT* context)
       pop(r3);  // number of true expressions
       pop(r4);  // last expression result
 
+      // The body of the loop can leave any non-zero integer on the stack, as
+      // in "for all of them : (#)" or "for any i in (1..3) : (7 or x)". It
+      // counts as one true iteration, whatever its value is.
+      if (!is_undef(r4))
+        r4.i = r4.i != 0 ? 1 : 0;
+
       // In case of 'all' loop, end once we the body failed
       if (is_undef(r2))
       {
